@@ -206,8 +206,11 @@ def gen_op(r, dw, weights, cfg):
     if kind == "stimulate":
         # reject fault: a further input of the same key with a different duration must be refused and leave nothing behind
         L_ = cfg["L"] + r.choice([1, 2, -1]) if (ref.externals.get("i") and r.random() < 0.08 and cfg["L"] > 2) else cfg["L"]
-        return {"op": "stimulate", "view": gen_node_view(r, ref), "len": L_, "seed": seed,
-                "two_d": r.random() < 0.35, "pattern": r.choice([None, None, "step"]), "bad_batch": r.random() < 0.03}
+        op = {"op": "stimulate", "view": gen_node_view(r, ref), "len": L_, "seed": seed,
+              "two_d": r.random() < 0.35, "pattern": r.choice([None, None, "step"]), "bad_batch": r.random() < 0.03}
+        if r.random() < 0.12:
+            op["ints"] = True  # integer-typed array (rounds to a placeholder of zeros at these amplitudes)
+        return op
     if kind == "clamp":
         if ref.syns and r.random() < cfg.get("p_syn_clamp", 0.0):
             cands = [(s_["name"], k) for s_ in ref.syns for k in s_["states"]]
@@ -222,7 +225,10 @@ def gen_op(r, dw, weights, cfg):
         view = gen_node_view(r, ref, prefer=("channel", own) if own else None)
         if own is None and r.random() < 0.7:
             view = [["select_nodes", idx(r, 2, forms=("int", "list"))]]
-        return {"op": "clamp", "view": view, "state": st, "len": cfg["L"], "seed": seed, "two_d": r.random() < 0.3}
+        op = {"op": "clamp", "view": view, "state": st, "len": cfg["L"], "seed": seed, "two_d": r.random() < 0.3}
+        if r.random() < 0.1:
+            op["ints"] = True  # integer-typed clamp values (-60 mV, gates at 0 / 1)
+        return op
     if kind == "delete_stimuli":
         return {"op": "delete_stimuli", "view": gen_node_view(r, ref) if r.random() < 0.6 else []}
     if kind == "delete_clamps":
@@ -242,6 +248,9 @@ def gen_op(r, dw, weights, cfg):
         return {"op": "make_trainable", "view": view, "key": key, "init": r.choice([None, None, None, "float", "float", "list", "list", "badlist", "zero"]), "seed": seed}
     if kind == "delete_trainables":
         k = r.random()
+        if k < 0.5 and any(t["key"] in ref.cols for t in ref.trainables) and any(t["key"] not in ref.cols for t in ref.trainables):
+            # compartment *and* synaptic trainables present: deleting through a view must sort them by what they index
+            k = 0.5 + 0.5 * r.random()
         if k < 0.5:
             return {"op": "delete_trainables", "view": []}
         if ref.edges and k < 0.65:
